@@ -274,14 +274,14 @@ Proof.
 Qed.
 
 (* ------------------------------------------------------------------ HTTP *)
-Lemma insert_rev_perm x acc : Permutation (insert_rev x acc) (x :: acc).
+Lemma insert_rev_perm k x acc : Permutation (insert_rev k x acc) (x :: acc).
 Proof.
   induction acc as [|y r IH]; cbn; [reflexivity|].
-  destruct (td_seq x <? td_seq y); [|reflexivity].
+  destruct (k x <? k y); [|reflexivity].
   etransitivity; [apply perm_skip; exact IH | apply perm_swap].
 Qed.
-Lemma fold_insert_perm l : forall acc,
-  Permutation (fold_left (fun acc x => insert_rev x acc) l acc) (l ++ acc).
+Lemma fold_insert_perm k l : forall acc,
+  Permutation (fold_left (fun acc x => insert_rev k x acc) l acc) (l ++ acc).
 Proof.
   induction l as [|x l IH]; intros acc; cbn; [reflexivity|].
   etransitivity; [apply IH|]. etransitivity; [apply Permutation_app_head; apply insert_rev_perm|].
